@@ -92,7 +92,7 @@ def write_replay(pid, name, case, single):
     return path
 
 def merge_evidence(pid, stats, nfail):
-    p = os.path.join(V, "evidence", pid + ".json")
+    p = os.path.join(os.environ.get("VERIF_EVIDENCE_DIR") or os.path.join(V, "evidence"), pid + ".json")
     try:
         ev = json.load(open(p))
     except Exception:
